@@ -32,12 +32,19 @@ MANIFEST = {'note': 'Trusted: Lean 4.33 kernel (axioms propext, Classical.choice
          'back to the Graham scan.',
  'technique': 'Lean 4 proof (structural induction over the mirrored quick-hull/Graham/trivial-hull code; checker '
               'soundness) + model/implementation correspondence incl. an exact binary64 rounding model',
- 'text': 'Exact Lean mirrors of quick_hull (slice permutations, last-maximum tie-break, rounded dot product), '
-         'graham_hull, trivial_hull, ConvexHull and the trigonometry-free skeleton of minimum_rotated_rect. Proved '
-         'for all inputs and every rounding function: hull vertices are input coordinates and the ring is closed '
-         '(quick-hull, Graham, trivial hull, ConvexHull), the trivial cases are complete, and the decidable checker '
-         'isStrictHull is sound (what it accepts is closed, strictly counter-clockwise at every vertex, without '
-         'consecutive repeats, made of input coordinates and has every input coordinate left of or on every edge). '
-         'The checker runs on the implementation output of every generated case; quick-hull and Graham vertex sets '
-         'are compared; minimum_rotated_rect is checked to be a rectangle containing the input with area not above '
-         'the bounding rectangle.'}
+ 'text': 'Exact Lean mirrors of quick_hull (slice permutations, last-maximum tie-break, dot product rounded in the '
+         'scalar type, ring verification + Graham fallback added by the fix commit), graham_hull, trivial_hull, '
+         'ConvexHull and the trigonometry-free skeleton of minimum_rotated_rect. Proved for all inputs and every '
+         'rounding function: hull vertices are input coordinates and the ring is closed (hull_set, quick-hull, '
+         'Graham, trivial hull, ConvexHull; convex_hull = quick_hull ring); quick_hull returns either a ring that '
+         'passed its verification or the Graham ring; the Graham stack pass keeps a strictly left-turning chain '
+         '(graham_pass_convex_partial: local invariant only); for fewer than four coordinates the whole property '
+         'holds (trivialHull_correct, small_hull_correct); the decidable checker isStrictHull is sound and '
+         'complete for its four clauses (closed, strict left turn at every vertex hence no repeated vertex and '
+         'none on the line through its neighbours, vertices are input coordinates, every input coordinate left '
+         'of or on every edge) and accepts nothing for inputs without three non-collinear coordinates; every '
+         'candidate box of minimum_rotated_rect contains all hull vertices and the minimum is taken '
+         '(mrr_contains, minBoxArea_le); kernel-evaluated witnesses of the two repaired defects. NOT proved: '
+         'global convexity/containment of quick-hull and Graham for four or more points (decided on every '
+         'generated case by the checker on the implementation output, quick-hull vs Graham vertex sets '
+         'compared), and area(mrr) <= area(bounding rect) (needs Freeman-Shapira; checked numerically per case).'}
